@@ -52,7 +52,19 @@ class Source:
         for file, f in self.files.items():
             self._collect(file, f["items"])
         # helpers that did not exist at the pinned commit: every generic walker looks through a call to one of them (see walk)
-        global _NEW_HELPERS
+        global _NEW_HELPERS, _STR_CONSTS
+        _STR_CONSTS = {}
+        pinned_consts = _pinned_consts()
+        dup = set()
+        for cname, c in self.consts.items():
+            ce = c.get("expr") if isinstance(c, dict) else None
+            nm = cname.split("::")[-1]
+            if isinstance(ce, dict) and ce.get("k") == "lit" and ce["lit"]["t"] == "str" and (pinned_consts is None or nm not in pinned_consts):
+                if nm in _STR_CONSTS and _STR_CONSTS[nm] != ce["lit"]["v"]:
+                    dup.add(nm)
+                _STR_CONSTS[nm] = ce["lit"]["v"]
+        for nm in dup:
+            _STR_CONSTS.pop(nm, None)
         byname = {}
         for fn in self.fns:
             byname.setdefault(fn.name, []).append(fn)
@@ -174,9 +186,25 @@ class Source:
 
 # ------------------------------------------------------------------ AST walking
 
+def _pinned_consts():
+    """names of the string constants of the pinned tree (tables/pinned_consts.json); None when the table is missing"""
+    import json as _json
+    p_ = os.path.join(os.path.dirname(os.path.dirname(os.path.abspath(__file__))), "tables", "pinned_consts.json")
+    try:
+        return set(_json.load(open(p_)))
+    except Exception:  # noqa
+        return None
+
+
+_STR_CONSTS = {}        # NAME -> text of `const NAME: &str = "text";` items that did not exist at the pinned commit (filled by Source)
+
+
 def lit_str(e):
     if e and e.get("k") == "lit" and e["lit"]["t"] == "str":
         return e["lit"]["v"]
+    # a literal that a clean-up gave a name (`const TYPES_TEMPLATE: &str = "typescript/types.ts.tera";` … `render(TYPES_TEMPLATE, ..)`)
+    if e and e.get("k") == "path" and e.get("segs") and e["segs"][-1] in _STR_CONSTS and e["segs"][-1].isupper():
+        return _STR_CONSTS[e["segs"][-1]]
     return None
 
 
